@@ -17,6 +17,7 @@ package radio
 
 import (
 	"bytes"
+	"encoding/base64"
 	"fmt"
 
 	"github.com/brocaar/lorawan"
@@ -52,6 +53,8 @@ var (
 	cLive       = simrt.RegisterCounter("probe_liveness_frames")
 	cEmptyPort0 = simrt.RegisterCounter("probe_port0_without_commands")
 	cResend     = simrt.RegisterCounter("probe_application_buffer_reused_for_next_frame")
+	cText       = simrt.RegisterCounter("probe_frames_received_as_base64_text")
+	cReuseRx    = simrt.RegisterCounter("probe_receiver_reuses_its_frame_value")
 
 	fLoss     = simrt.RegisterCounter("fault_loss")
 	fDup      = simrt.RegisterCounter("fault_duplicate")
@@ -101,8 +104,9 @@ func classify(b []byte, pos int) string {
 
 // side is one party's view of one device session.
 type side struct {
-	appBuf       []byte // sender: the application buffer handed to the library last time (re-used for re-sends)
-	appTruth     []byte // what that buffer held when the application filled it
+	rxPHY        *lorawan.PHYPayload // receiver: value re-used for decoding arrivals
+	appBuf       []byte              // sender: the application buffer handed to the library last time (re-used for re-sends)
+	appTruth     []byte              // what that buffer held when the application filled it
 	sess         pipe.Session
 	fcntUp       uint32 // device: next to send; NS: last accepted (for reconstruction)
 	nFCntDown    uint32 // NS: next to send; device: last accepted
@@ -152,6 +156,11 @@ func doneReset() { doneCount = 0 }
 
 func build(sw *sim.World) {
 	doneReset()
+	for _, up := range []bool{false, true} {
+		if err := lorawan.RegisterProprietaryMACCommand(up, propCID, propSize); err != nil {
+			panic(err)
+		}
+	}
 	// the parties share session state and synchronise at their blocking
 	// points: sequential world, no preemption inside library calls
 	simrt.ForceRunToBlock()
@@ -450,7 +459,15 @@ func sessionFault(w *world, id int, r *sim.Rand) {
 	}
 }
 
-func gen(up bool) spec.CmdGen { return spec.CmdGen{Up: up} }
+// proprietary commands registered by the main goroutine before the tasks start
+const (
+	propCID  = 0x91
+	propSize = 2
+)
+
+func gen(up bool) spec.CmdGen {
+	return spec.CmdGen{Up: up, Prop: map[byte]int{propCID: propSize, 0x92: 0}}
+}
 
 func noteFrame(f spec.Frame, s *pipe.Session) {
 	if s.V11 {
@@ -630,9 +647,25 @@ func receive(w *world, p *packet, rcv int, r *sim.Rand) bool {
 		simrt.Count(cNontrivial)
 	}
 
+	// a receiver may decode every arrival into the same PHYPayload value
 	phy := &lorawan.PHYPayload{}
+	if r.Intn(2) == 0 {
+		if me.rxPHY == nil {
+			me.rxPHY = &lorawan.PHYPayload{}
+		}
+		phy = me.rxPHY
+		simrt.Count(cReuseRx)
+	}
 	var uerr error
-	if sim.Guard("panic.receiver", func() { uerr = phy.UnmarshalBinary(append([]byte(nil), p.bytes...)) }) {
+	if sim.Guard("panic.receiver", func() {
+		if len(p.bytes)%5 == 0 {
+			// some gateways forward frames as base64 text
+			simrt.Count(cText)
+			uerr = phy.UnmarshalText([]byte(base64.StdEncoding.EncodeToString(p.bytes)))
+		} else {
+			uerr = phy.UnmarshalBinary(append([]byte(nil), p.bytes...))
+		}
+	}) {
 		return false
 	}
 	if uerr != nil {
